@@ -25,7 +25,7 @@ import numpy as np
 
 from .. import ftable
 from ..common import Report, MachineryError, seed, quiet, WORK
-from ._c1314_util import (tlc_jobs, validate_parallel, validate_records, lib_call, run_parts, Guard, PrivateGone, uniq)
+from ._c1314_util import (tlc_jobs, validate_parallel, validate_records, lib_call, run_parts, Guard, PrivateGone, uniq, compiled_call)
 
 PROPS = {
     "C14": dict(level="model_checking",
@@ -117,7 +117,7 @@ def py_borders(E, th, kr):
 
 def real_weights_tetra(efs, e, der, acc, unit):
     from wannierberri.grid.tetrahedron import weights_tetra
-    got = weights_tetra(np.array(efs, dtype=float) * unit, e[0] * unit, e[1] * unit, e[2] * unit, e[3] * unit, der=der, accurate=acc)
+    got = compiled_call(weights_tetra, np.array(efs, dtype=float) * unit, e[0] * unit, e[1] * unit, e[2] * unit, e[3] * unit, der=der, accurate=acc)
     return np.array(got, dtype=float) * unit ** der
 
 
@@ -300,7 +300,7 @@ def part_near_coincident(rep, thorough, rng):
         fe = [Fraction(t) for t in e]
         cands = [srt[0] - 0.0625, srt[3] + 0.0625] + [(a + b) / 2 for a, b in zip(srt, srt[1:]) if b > a] + [srt[1] + g / 4, srt[2] - g / 4, srt[0], srt[3]]
         inputs = dict(corners=e, efs=cands, der=0)
-        ok, got = lib_call(rep, "weights_tetra", inputs, lambda: np.array(weights_tetra(np.array(cands), *e, der=0), dtype=float))
+        ok, got = lib_call(rep, "weights_tetra", inputs, lambda: np.array(compiled_call(weights_tetra, np.array(cands), *e, der=0), dtype=float))
         if ok:
             for x, gv in zip(cands, got):
                 fx = Fraction(x)
@@ -332,7 +332,7 @@ def part_near_coincident(rep, thorough, rng):
         rng.shuffle(e)
         ef = v * U_REC
         ee = [x * U_REC for x in e]
-        ok, got = lib_call(rep, "weights_tetra", dict(corners=ee, ef=ef, der=0), lambda: float(weights_tetra(np.array([ef]), *ee, der=0)[0]))
+        ok, got = lib_call(rep, "weights_tetra", dict(corners=ee, ef=ef, der=0), lambda: float(compiled_call(weights_tetra, np.array([ef]), *ee, der=0)[0]))
         if not ok:
             continue
         exact = float(py_closed(e, v, 0))
@@ -715,7 +715,7 @@ def part_records(rep, thorough, rng, G):
         for k, v in stats.items():
             if v == 0:
                 raise MachineryError(f"vacuous record class {k}")
-    stv, bad = validate_parallel("TetraWeightsRec.tla", REC_CFG, recs, "c14", 3)
+    stv, bad = validate_parallel("TetraWeightsRec.tla", REC_CFG, recs, "c14", 2)
     rep.add_tlc("c14_records", stv)
     rep.add_traces(len(recs))
     rep.part("c14_records", **stats)
@@ -727,18 +727,21 @@ def part_records(rep, thorough, rng, G):
         rep.violation(f"{fnname}:recorded:der{r['der']}", dict(record=r, failing_clauses=clauses, unit=U_REC,
                                                               note="got8 = round(value * unit^der * 1e8), tol8 in 1e-8"))
     rep.sample(recs[0])
-    # binding self-test: corrupted records must be rejected
+    # binding self-test: corrupted records must be rejected (one TLC run for both)
+    corrupted = []
     for fn, corrupt in (("tetra", lambda q: q["got8"].__setitem__(0, q["got8"][0] + 5000)),
                         ("groups", lambda q: q["out"][0][2].__setitem__(0, q["out"][0][2][0] + 5000))):
         cand = [r for r in recs if r["fn"] == fn and (fn != "groups" or len(r["out"]) > 0)][:1]
         if not cand:
             raise MachineryError(f"no record for the self-test of {fn}")
-        b = copy.deepcopy(cand)
-        corrupt(b[0])
-        _, b2 = validate_records("TetraWeightsRec.tla", REC_CFG, b, "c14_selftest")
-        if 0 not in b2:
+        b = copy.deepcopy(cand[0])
+        corrupt(b)
+        corrupted.append(b)
+    _, b2 = validate_records("TetraWeightsRec.tla", REC_CFG, corrupted, "c14_selftest")
+    for i, fn in enumerate(("tetra", "groups")):
+        if i not in b2:
             raise MachineryError(f"binding self-test failed: corrupted {fn} record accepted")
-        rep.part("binding_selftest_" + fn, corrupted_record_rejected=b2[0])
+        rep.part("binding_selftest_" + fn, corrupted_record_rejected=b2[i])
 
 
 # --------------------------------------------------------------------------------------------------------------------
